@@ -295,12 +295,29 @@ Inductive case :=
 | CBytes (bs : list Z)
 (* table tie for NumberSet: from_base_and_set(base, set) (set strictly ascending), its parts,
    iter(), write in both byte orders, read back *)
-| CNumSet (k : nkind) (base : Z) (set : list Z).
+| CNumSet (k : nkind) (base : Z) (set : list Z)
+(* a NumberSet as it ARRIVES ON THE WIRE: the raw parts (any words: dirty padding after numBits,
+   too few / too many words) are written by the real writer in byte order [e], [extra] bytes are
+   appended, the real reader parses the bytes, and every accessor of the parsed set is observed:
+   base(), iter() forwards, iter().rev(), next()/next_back() alternately, is_empty() *)
+| CNumRaw (k : nkind) (e : endian) (base bits : Z) (words : list Z) (extra : list Z).
+
+(* what the accessors of a parsed set report *)
+Record rawres := RR {
+  rr_set : numset;          (* the parts of the parsed set *)
+  rr_rest : Z;              (* number of bytes the reader left unread *)
+  rr_base : Z;              (* base() *)
+  rr_fwd : ires;            (* iter().collect() *)
+  rr_bwd : ires;            (* iter().rev().collect() *)
+  rr_alt : ires;            (* next(), next_back(), next(), ... until the first None *)
+  rr_empty : option bool    (* is_empty(); None = panic *)
+}.
 
 Inductive obs :=
 | ObsMsg (m : message) (bytes : list Z) (ctx_same : bool) (parsed : pres message) (reser_same : bool)
 | ObsBytes (parsed : pres message) (reser : option (list Z))
 | ObsNumSet (s : numset) (iter : list Z) (le be : list Z) (reread : bool)
+| ObsNumRaw (bytes : list Z) (r : option rawres)    (* None = the reader rejects the bytes *)
 | ObsPanic.
 
 Definition other (e : endian) : endian := match e with LE => BE | BE => LE end.
@@ -334,14 +351,31 @@ Definition run (c : case) : obs :=
            end)
       end
     end
+  | CNumRaw k e base bits words extra =>
+    let bytes := enc_ns k e (NS base bits words) ++ extra in
+    ObsNumRaw bytes
+      (match dec_ns k e bytes with
+       | None => None
+       | Some (s, rest) =>
+         Some (RR s (len rest) (ns_base_fn s) (ns_collect k s) (ns_collect_rev k s) (ns_collect_alt k s)
+                  (ns_is_empty k s))
+       end)
   end.
+
+Definition ires_eq_dec (a b : ires) : {a = b} + {a <> b}.
+Proof. decide equality; apply (list_eq_dec Z.eq_dec). Defined.
+Definition rawres_eq_dec (a b : rawres) : {a = b} + {a <> b}.
+Proof.
+  decide equality;
+    first [ apply Z.eq_dec | apply numset_eq_dec | apply ires_eq_dec | apply (opt_eq_dec Bool.bool_dec) ].
+Defined.
 
 Definition obs_eq_dec (a b : obs) : {a = b} + {a <> b}.
 Proof.
   decide equality;
     first [ apply message_eq_dec | apply bytes_eq_dec | apply Bool.bool_dec
           | apply (pres_eq_dec message_eq_dec) | apply (opt_eq_dec bytes_eq_dec)
-          | apply numset_eq_dec ].
+          | apply numset_eq_dec | apply (opt_eq_dec rawres_eq_dec) ].
 Defined.
 Definition obs_eqb (m i : obs) : bool := dec2b (obs_eq_dec m i).
 
@@ -355,6 +389,58 @@ Definition is_raw (o : bop) : bool := match o with OpRaw _ => true | _ => false 
 Definition demandedb (ops : list bop) (m : message) : bool :=
   builtb m ||
   (negb (existsb is_raw ops) && built_hdrb (m_hdr m) && forallb built_sub_looseb (m_subs m)).
+
+(* ---- wire-parsed number sets ---- *)
+Definition byteb := rangeb 0 256.
+Definition num_okb (k : nkind) (n : Z) : bool := (n_lo k <=? n) && (n <=? n_hi k).
+Definition zlist_eqb (a b : list Z) : bool := dec2b (bytes_eq_dec a b).
+(* positions 0, 2, 4, ... of l (front = true) or 1, 3, 5, ... (front = false) *)
+Fixpoint fronts (front : bool) (l : list Z) : list Z :=
+  match l with
+  | [] => []
+  | x :: r => if front then x :: fronts false r else fronts true r
+  end.
+Definition over (k : nkind) (x : Z) : bool := n_hi k <? x.
+
+(* a consumer of the iterator that visits the members in the order [want]: it either collects
+   exactly them, or the debug-build addition `bit + base` panicked, which is only possible if a
+   member of the window lies above the maximum of the number type *)
+Definition collect_okb (k : nkind) (mem : list Z) (want : list Z -> bool) (r : ires) : bool :=
+  match r with
+  | IOk l => want l && negb (existsb (over k) mem)
+  | IPanic => existsb (over k) mem
+  | IFuel => false
+  end.
+
+(* what the property demands of the accessors of a set with the parts [s], however it was made:
+   the members reported are exactly the in-window bits (mem = members s, ascending; padding bits
+   after numBits and the words' other content never show), backwards is the reverse, alternating
+   from both ends meets in the middle, is_empty() says whether a bit below numBits is set *)
+Definition raw_accessors_okb (k : nkind) (s : numset) (r : rawres) : bool :=
+  let mem := members s in
+  (rr_base r =? ns_base s) &&
+  collect_okb k mem (fun l => zlist_eqb l mem) (rr_fwd r) &&
+  collect_okb k mem (fun l => zlist_eqb l (rev mem)) (rr_bwd r) &&
+  collect_okb k mem (fun l => zlist_eqb (fronts true l ++ rev (fronts false l)) mem) (rr_alt r) &&
+  match rr_empty r with
+  | Some b => Bool.eqb b (is_nil mem) && negb (existsb (over k) (firstn 1 mem))
+  | None => existsb (over k) (firstn 1 mem)
+  end.
+
+(* the shape the reader guarantees for a set it accepts *)
+Definition raw_shapeb (k : nkind) (s : numset) : bool :=
+  (0 <=? ns_bits s) && (ns_bits s <=? 256) && (len (ns_words s) =? wcount (ns_bits s)).
+
+(* the parts survive the wire: for in-range inputs the reader accepts iff numBits <= 256 and the
+   bytes suffice (decided here for the case that the writer had all the words), base and numBits
+   come back, and every word the writer had comes back *)
+Definition raw_inrangeb (k : nkind) (base bits : Z) (words extra : list Z) : bool :=
+  num_okb k base && u32b bits && forallb u32b words && forallb byteb extra.
+Definition raw_parts_okb (base bits : Z) (words extra : list Z) (s : numset) (nrest : Z) : bool :=
+  (ns_base s =? base) && (ns_bits s =? bits) &&
+  (let n := Z.to_nat (Z.min (wcount bits) (len words)) in
+   zlist_eqb (firstn n (ns_words s)) (firstn n words)) &&
+  (if wcount bits <=? len words then nrest =? len extra else true).
 
 Definition ok (c : case) (o : obs) : bool :=
   match c, o with
@@ -382,5 +468,12 @@ Definition ok (c : case) (o : obs) : bool :=
     | [] => false
     | _ => let b' := adj_base base set in negb ((1 <=? b') && (b' + 256 <=? n_hi k))
     end
+  | CNumRaw k e base bits words extra, ObsNumRaw _ None =>
+    negb (raw_inrangeb k base bits words extra && (bits <=? 256) && (wcount bits <=? len words))
+  | CNumRaw k e base bits words extra, ObsNumRaw _ (Some r) =>
+    let s := rr_set r in
+    raw_shapeb k s &&
+    (if raw_inrangeb k base bits words extra then raw_parts_okb base bits words extra s (rr_rest r) else true) &&
+    raw_accessors_okb k s r
   | _, _ => false
   end.
